@@ -217,15 +217,23 @@ impl NoGoodStore {
                 DuplicateElemination::None => true,
                 DuplicateElemination::Equiv => !self.store[idx].contains(&nogood),
                 DuplicateElemination::Subsume => {
-                    self.store
-                        .iter_mut()
-                        .enumerate()
-                        .for_each(|(cur_idx, ng_vec)| {
-                            if idx >= cur_idx {
-                                ng_vec.retain(|ng| !ng.is_violating(&nogood));
-                            }
-                        });
-                    true
+                    // a stored nogood which is a subset of the new one already excludes it
+                    if self.store.iter().enumerate().any(|(cur_idx, ng_vec)| {
+                        cur_idx <= idx && ng_vec.iter().any(|ng| ng.is_violating(&nogood))
+                    }) {
+                        false
+                    } else {
+                        // the new nogood excludes all stored supersets
+                        self.store
+                            .iter_mut()
+                            .enumerate()
+                            .for_each(|(cur_idx, ng_vec)| {
+                                if idx <= cur_idx {
+                                    ng_vec.retain(|ng| !nogood.is_violating(ng));
+                                }
+                            });
+                        true
+                    }
                 }
             } {
                 self.store[idx].push(nogood);
